@@ -10,3 +10,12 @@ Definition oracle_from (k k2 : kind) (v : pyv) (observed : res val) : bool :=
   | Ok x => res_eqv (nf k (pyv_of_val x)) observed
   | Raise _ => true
   end.
+
+(* a column object (of kind k2, handing out the cell v) as value.  setform: dm.name = column / dm[name] = column,
+   where the column takes the type of the value; otherwise the target keeps its kind k.  kobs = the kind of the
+   column after the write (only judged when the write succeeded). *)
+Definition kind_same (a b : kind) : bool :=
+  match a, b with KMixed, KMixed | KFloat, KFloat | KInt, KInt => true | _, _ => false end.
+Definition oracle_colval (setform : bool) (k k2 kobs : kind) (v : pyv) (observed : res val) : bool :=
+  let kexp := if setform then k2 else k in
+  res_eqv (nf kexp v) observed && match observed with Ok _ => kind_same kobs kexp | Raise _ => true end.
